@@ -9,11 +9,13 @@ import (
 	"encoding/binary"
 	"fmt"
 	"math"
+	"net"
 	"os"
 	"path/filepath"
 	"strconv"
 	"strings"
 	"sync"
+	"time"
 
 	"github.com/glowlabs-org/gca-backend/glow"
 	"github.com/glowlabs-org/gca-backend/server"
@@ -66,14 +68,14 @@ type devInfo struct {
 }
 
 type srvGen struct {
-	s        *Srv
-	r        *Rng
-	seed     uint64
-	focus    string
-	devs     []devInfo          // authorizations that were accepted as new (by id)
-	keys     []Key              // device key pool
-	sent     [][]byte           // datagrams sent so far (for replays)
-	regDone  bool
+	s         *Srv
+	r         *Rng
+	seed      uint64
+	focus     string
+	devs      []devInfo // authorizations that were accepted as new (by id)
+	keys      []Key     // device key pool
+	sent      [][]byte  // datagrams sent so far (for replays)
+	regDone   bool
 	markerSeq int
 	authsSeen []glow.EquipmentAuthorization
 }
@@ -658,7 +660,15 @@ func (g *srvGen) opRegisterRace() {
 // closure that performs it on the real server while writing its trace lines into a buffer.
 func (g *srvGen) injectable() (string, func()) {
 	r := g.r
-	switch r.pick([]int{40, 30, 30}) {
+	switch r.pick([]int{34, 26, 22, 12, 6}) {
+	case 3:
+		return "authorize", func() {
+			ea := SignAuth(g.freshAuth(uint32(r.Intn(7)), g.keys[r.Intn(len(g.keys))]), g.s.E.GCA.Priv)
+			g.s.Authorize(ea, false)
+			g.authsSeen = append(g.authsSeen, ea)
+		}
+	case 4:
+		return "register", func() { g.opRegister() }
 	case 0:
 		return "dgram", func() {
 			if len(g.devs) > 0 {
@@ -918,6 +928,9 @@ func runSrvScenario(focus string, seed uint64, size int, t *Trace) error {
 		return err
 	}
 	w := focusWeights[focus]
+	if focus == "C04P" {
+		w = focusWeights["C04"]
+	}
 	if w == nil {
 		w = focusWeights["C12"]
 	}
@@ -1019,9 +1032,48 @@ func runSrvScenario(focus string, seed uint64, size int, t *Trace) error {
 			}
 		}
 	}
+	if focus == "C04P" && !s.Lost && s.E.S != nil {
+		// the history ends here: restart, and restart again
+		for k := 0; k < 2; k++ {
+			if err := s.Restart(); err != nil {
+				t.DumpStats()
+				return nil
+			}
+		}
+	}
 	if !s.Lost {
 		s.Snap()
 		s.Disk()
+	}
+	if focus == "C12" && !s.Lost && s.E.S != nil && r.Chance(20) {
+		// connections left idle or half-sent on the sync port must not hold the shutdown for longer than the
+		// server's own shutdown bound (5 s in this build; the handler gives a connection half of it)
+		_, tcp, _ := s.E.S.Ports()
+		n := 1 + r.Intn(3)
+		var conns []net.Conn
+		for i := 0; i < n; i++ {
+			if c, err := net.DialTimeout("tcp", fmt.Sprintf("127.0.0.1:%d", tcp), 2*time.Second); err == nil {
+				if r.Chance(50) {
+					c.Write(r.Bytes(1 + r.Intn(3)))
+				}
+				conns = append(conns, c)
+			}
+		}
+		time.Sleep(20 * time.Millisecond)
+		t0 := time.Now()
+		err := s.E.Stop()
+		dt := time.Since(t0)
+		obs := "ok"
+		if err != nil {
+			obs = "ERR:" + err.Error()
+		} else if dt > 5*time.Second {
+			obs = fmt.Sprintf("SLOW:%v", dt.Round(time.Millisecond))
+		}
+		for _, c := range conns {
+			c.Close()
+		}
+		t.Count("shutdown-with-idle-connections")
+		t.Line("srv.shutdown idle=%d => %s", len(conns), obs)
 	}
 	t.DumpStats()
 	return nil
@@ -1135,6 +1187,57 @@ func init() {
 		s.Disk()
 		s.E.Stop()
 		t.DumpStats()
+		return 0
+	}
+	commands["prefix"] = func(args []string) int {
+		// prefix <seedbase> <histories> <maxlen> <outfile>: every history of the C04 generator is cut after each
+		// of its first maxlen operations and restarted (twice) there
+		base, _ := strconv.ParseUint(args[0], 10, 64)
+		n, _ := strconv.Atoi(args[1])
+		maxlen, _ := strconv.Atoi(args[2])
+		f, err := os.Create(args[3])
+		if err != nil {
+			fmt.Println(err)
+			return 2
+		}
+		defer f.Close()
+		type job struct {
+			seed uint64
+			k    int
+		}
+		var jobs []job
+		for h := 0; h < n; h++ {
+			for k := 1; k <= maxlen; k++ {
+				jobs = append(jobs, job{base + uint64(h), k})
+			}
+		}
+		out := make([]string, len(jobs))
+		codes := make([]int, len(jobs))
+		sem := make(chan struct{}, 14)
+		var wg sync.WaitGroup
+		for i, j := range jobs {
+			wg.Add(1)
+			go func(i int, j job) {
+				defer wg.Done()
+				sem <- struct{}{}
+				codes[i], out[i] = selfExec(100*1e9, "srvscenario", "C04P", strconv.FormatUint(j.seed, 10), strconv.Itoa(j.k))
+				<-sem
+			}(i, j)
+		}
+		wg.Wait()
+		crashes := 0
+		for i := range jobs {
+			for _, l := range strings.Split(out[i], "\n") {
+				if strings.HasPrefix(l, "scenario ") || strings.HasPrefix(l, "srv.") || strings.HasPrefix(l, "v ") || strings.HasPrefix(l, "# stat") || strings.HasPrefix(l, "crypto.") {
+					f.WriteString(l + "\n")
+				}
+			}
+			if codes[i] != 0 {
+				crashes++
+				fmt.Fprintf(f, "crash seed=%d exit=%d => prefix %d\n", jobs[i].seed, codes[i], jobs[i].k)
+			}
+		}
+		fmt.Printf("HARNESS scenarios=%d crashes=%d\n", len(jobs), crashes)
 		return 0
 	}
 	commands["srv"] = func(args []string) int {
